@@ -251,9 +251,40 @@ class C10Oracle(Oracle):
         if ev[0].startswith("element.") and a0 is not None:
             parent = getattr(a0, PARENT_ATTR.get(w.kind[w.idx(a0)], "parent"), None)
         self.origin = "clone" if parent is not None and parent.__dict__.get("_vclone") else "built"
+        # exact lookups asked now and read only after the event: what comes out agrees with a scan made then
+        self.pending = []
+        m0 = self.model()
+        for i in range(len(w)):
+            if w.kind[i] not in CHILDREN:
+                continue
+            for ck, lst, getter in CHILDREN[w.kind[i]]:
+                for v in VALUES[:2]:
+                    try:
+                        self.pending.append((i, ck, lst, getter, v, getattr(w[i], getter)(v)))
+                    except Exception:
+                        pass
         return tok
 
     def step(self, w, ev, outcome, token):
+        return self.late_reads(w, ev) + self.step_naming(w, ev, outcome, token)
+
+    def late_reads(self, w, ev):
+        bad = []
+        for i, ck, lst, getter, v, gen in getattr(self, "pending", ()):
+            parent = w[i]
+            want = set(id(c) for c in getattr(parent, lst) if ".NAME" in c and c[".NAME"] == v)
+            try:
+                got = [id(x) for x in gen]
+            except Exception as e:
+                bad.append(("late-read-raised:%s:%s" % (ck, type(e).__name__), "%s(%r) asked before %s, read after it" % (getter, v, ev[0])))
+                continue
+            if set(got) != want or len(got) != len(set(got)):
+                bad.append(("late-read-differs:%s:%s" % (ck, getter), "%s(%s, %r) asked before %s and read after it gives %d element(s), a scan finds %d"
+                            % (getter, engine_a.ops._fmt(i), v, ev[0], len(got), len(want))))
+        self.pending = []
+        return bad
+
+    def step_naming(self, w, ev, outcome, token):
         if token in (None, "structural"):
             return []
         refused_by_naming = outcome == ("raised", "ValueError")
